@@ -34,6 +34,11 @@ func (u *Unit) evalCall(st *State, call *ast.CallExpr) []Value {
 			args := u.evalArgs(st, call, cl.info.TypeOf(cl.lit).(*types.Signature))
 			return u.inlineLit(st, cl, args)
 		}
+		// a closure captured from the enclosing function (this unit is one of its literals)
+		if cl := u.capturedClosure(c); cl != nil {
+			args := u.evalArgs(st, call, cl.info.TypeOf(cl.lit).(*types.Signature))
+			return u.inlineLit(st, cl, args)
+		}
 	case nil:
 		if lit, ok := ast.Unparen(call.Fun).(*ast.FuncLit); ok {
 			cv := u.closureValue(st, lit)
@@ -1212,6 +1217,37 @@ var libraryEffects = map[string][]string{
 	"(context.Context).Done":                    {},
 	"(context.Context).Err":                     {},
 	"sort.Search":                               {},
+}
+
+// capturedClosure finds the literal assigned (once) to variable v in an enclosing function.
+func (u *Unit) capturedClosure(v *types.Var) *closure {
+	for pu := u; pu != nil; pu = pu.parent {
+		fr := pu.litFrame
+		if fr == nil || fr.body == nil {
+			continue
+		}
+		var found *ast.FuncLit
+		n := 0
+		ast.Inspect(fr.body, func(x ast.Node) bool {
+			as, ok := x.(*ast.AssignStmt)
+			if !ok {
+				return true
+			}
+			for i, l := range as.Lhs {
+				if lid, ok := l.(*ast.Ident); ok && fr.info.ObjectOf(lid) == v && i < len(as.Rhs) {
+					n++
+					if lit, ok := as.Rhs[i].(*ast.FuncLit); ok {
+						found = lit
+					}
+				}
+			}
+			return true
+		})
+		if found != nil && n == 1 {
+			return &closure{lit: found, info: fr.info, pkg: fr.pkg, fr: fr}
+		}
+	}
+	return nil
 }
 
 func (u *Unit) findClosureLit(id *ast.Ident) *ast.FuncLit {
